@@ -169,6 +169,12 @@ def apply_mutation(env, label, m):
         env.add_filter("upcase", lambda v, _l=label: "%s<UP:%s>" % (v, _l))
     elif m[0] == "instance_flag":
         setattr(env, m[1], m[2])       # a feature flag set on the instance, not the class
+    elif m[0] == "redelimit":
+        # tag and output delimiters assigned as attributes AFTER construction (a subclass doing so after
+        # super().__init__(), or an application adjusting a shared base environment)
+        d = m[1]
+        env.tag_start_string, env.tag_end_string = d["ts"], d["te"]
+        env.statement_start_string, env.statement_end_string = d["os"], d["oe"]
     elif m[0] == "copy_builtin_filters":
         # filters taken from ANOTHER environment's register and added to this one: for the built-in
         # functions that is a no-op, whatever that other environment's autoescape / tolerance are
@@ -254,12 +260,20 @@ def evaluate_probe(probe):
         return [custom, canon]
     spec = probe["spec"]
     keep = []
+    d0 = spec.get("delims0") or probe["delims"]
     try:
-        env = build_env_c11(spec, probe["delims"], sources_for(spec, probe["delims"]), keep=keep)
+        env = build_env_c11(spec, d0, sources_for(spec, d0), keep=keep)
         custom = probe_outcome(env, probe["source"], probe["data"], probe["what"])
     finally:
         for fs in keep:
             fs.close()
+    if spec.get("delims0") and not spec.get("loader_mode"):
+        # delimiters assigned after construction == the same delimiters given to the constructor
+        # (same partial sources, same other mutations)
+        twin = {**spec, "mutations": [m for m in spec["mutations"] if m[0] != "redelimit"]}
+        twin.pop("delims0")
+        env2 = build_env_c11(twin, probe["delims"], sources_for(spec, d0))
+        return [custom, probe_outcome(env2, probe["source"], probe["data"], probe["what"])]
     if probe.get("canon_source") is None:
         return [custom, custom]       # no delimiter-equivalence side for this probe
     cspec = dict(spec)
@@ -460,6 +474,12 @@ class C11:
                                       ["override_filter"], ["add_filter", "mark"],
                                       ["copy_builtin_filters", specs[op["spec"]]["recipe"]],
                                       ["instance_flag", rng.choice(G.FLAG_NAMES), rng.chance(0.5)]])
+                if rng.chance(0.2):
+                    cur = delim_sets[specs[op["spec"]]["delims"]]
+                    other = delim_sets[rng.randrange(len(delim_sets))]
+                    newd = {**cur, **{q: other[q] for q in ("ts", "te", "os", "oe")}}
+                    if newd != cur and delims_ok(list(newd.values())):
+                        op["m"] = ["redelimit", newd]
             elif k == "implicit":
                 op["tree"] = rng.randrange(len(trees))
                 op["data"] = rng.randrange(len(datas))
@@ -560,8 +580,15 @@ class C11:
         def add(oracle, sig, detail):
             viol.append({"oracle": oracle, "sig": sig, "detail": detail})
 
-        def delims_of(i):
+        def delims0_of(i):
             return sc["delim_sets"][sc["specs"][i]["delims"]]
+
+        def delims_of(i):
+            if i in live:
+                for m in reversed(live[i][1]):
+                    if m[0] == "redelimit":
+                        return m[1]
+            return delims0_of(i)
 
         lmode = sc.get("loader_mode")
         shared_sources = sources_for(sc["specs"][0], sc["delim_sets"][sc["specs"][0]["delims"]]) if lmode else None
@@ -592,12 +619,14 @@ class C11:
             if lmode:
                 out["loader_mode"] = lmode
                 out["shared_sources"] = shared_sources
+            if delims_of(i) != delims0_of(i):
+                out["delims0"] = delims0_of(i)      # constructed with these, re-delimited afterwards
             return out
 
         def ensure(i):
             if i not in live:
                 spec = {**cur_spec(i), "mutations": []}
-                env = build_env_c11(spec, delims_of(i), sources_for(spec, delims_of(i)), loader=loader_for_env())
+                env = build_env_c11(spec, delims0_of(i), sources_for(spec, delims0_of(i)), loader=loader_for_env())
                 live[i] = (env, [])
                 d = delims_of(i)
                 if d != G.DEFAULT_DELIMS:
